@@ -396,6 +396,7 @@ func (f *Frame) pointEnv(st *State, b *ssa.BasicBlock, idx int, extra map[string
 			entryName = name[:len(name)-1]
 		}
 		v, isAddr, ok := f.lookupName(name, b, idx)
+
 		if !ok && entryName != "" {
 			for _, p := range f.fn.Params {
 				if p.Name() == entryName {
